@@ -56,7 +56,9 @@ func init() {
 	// the host-filesystem VFS (osfs.go, under localdisk) is held to the
 	// contract the crash model assumes of a VFS: see sim.RecVFS
 	files.VerifWrapOSFS = func(v files.VFS) files.VFS { return &sim.RecVFS{Inner: v} }
-	sim.FilesGateHook = files.VerifSetNewFileGate
+	if os.Getenv("VERIF_NOGATE") == "" { // (switch for comparison runs)
+		sim.FilesGateHook = files.VerifSetNewFileGate
+	}
 }
 
 func genC03(tier string, run int, r *simcore.Rand) *harness.Plan {
